@@ -10,7 +10,7 @@ from .. import tlc
 from ..common import Report, pmap
 from ..enc import iso, lat, secs_of
 
-FAMILY = r"^(release\.(step|count|no_off|pids|rows|payload|time_stamp|alive|total|refuses_only_empty)|startup\.empty_release_refused|run\.crashed|setup\.valid)"
+FAMILY = r"^(trace\.incomplete|release\.(after_start_up|step|count|no_off|pids|rows|payload|time_stamp|alive|total|refuses_only_empty)|startup\.empty_release_refused|run\.crashed|setup\.valid)"
 QX, QZ = 64, 4
 
 
